@@ -13,6 +13,8 @@ Key grammar
     w:<n>            DictWrapper around its own dict {"val": n}   (identity hashed)
     o:<n>            Obj(guid="g<n>", label="o<n>")  (identity hashed unless the
                      tree has the guid hook, then data_id == "g<n>")
+    x:<n>            the float <n>.0: equal to the int n (same hash), but keyed "F:<n>.0" by
+                     the id callback - drawn for trees with the id callback only
     u:<n>            native dict {"guid": "gu<n>", "u": n}: unhashable, usable only with
                      an explicit data_id or in a tree whose id callback keys it
     f:<n> / g:<n>    nutree.fs.FileSystemEntry file "f<n>.txt" / folder "g<n>"
@@ -56,6 +58,8 @@ def guid_hook(tree, data):
         return data["guid"]  # "Adding Native Dictionaries" in ug_objects.rst
     if isinstance(data, str):
         return "L:" + data.lower()
+    if isinstance(data, float):
+        return "F:%r" % data  # type aware: 1.0 is not 1 (although 1.0 == 1)
     return hash(data)
 
 
@@ -98,6 +102,8 @@ class Pool:
             return "".join(list(rest))
         if flavour == "i":
             return int(rest)
+        if flavour == "x":
+            return float(int(rest))
         if flavour == "t":
             n, _, _j = rest.partition("#")
             return tuple([int(n), "t"])
@@ -132,6 +138,8 @@ def encode_value(obj) -> dict:
         raise TypeError(obj)
     if isinstance(obj, int):
         return {"type": "int", "v": obj}
+    if isinstance(obj, float):
+        return {"type": "float", "v": obj}
     if isinstance(obj, tuple):
         return {"type": "tup", "v": obj[0]}
     if isinstance(obj, FPerson):
@@ -161,6 +169,8 @@ def decode_value(d: dict, nutree_mod):
     t = d["type"]
     if t == "int":
         return int(d["v"])
+    if t == "float":
+        return float(d["v"])
     if t == "tup":
         return tuple([int(d["v"]), "t"])
     if t == "person":
@@ -178,9 +188,13 @@ def decode_value(d: dict, nutree_mod):
 
 def value_equal(a, b) -> bool:
     """Equality 'as rebuilt by the mapper' (type and value fields)."""
+    num = (int, float)
+    if isinstance(a, num) and isinstance(b, num) and not isinstance(a, bool) \
+            and not isinstance(b, bool):
+        return a == b  # 1 and 1.0 are one value (equal, same hash) for a tree without callback
     if type(a) is not type(b):
         return False
-    if isinstance(a, (str, int, tuple, FPerson)):
+    if isinstance(a, (str, int, float, tuple, FPerson)):
         return a == b
     if isinstance(a, Obj):
         return a.guid == b.guid and a.label == b.label
@@ -196,6 +210,8 @@ def flavour_of(obj) -> str:
         return "s"
     if isinstance(obj, int):
         return "i"
+    if isinstance(obj, float):
+        return "x"
     if isinstance(obj, tuple):
         return "t"
     if isinstance(obj, FPerson):
